@@ -92,8 +92,15 @@ def s_spec(classes):
 
 
 @st.composite
-def s_source(draw, d, n_max=20, extent=EXTENT):
+def s_source(draw, d, n_max=20, extent=EXTENT, planar=False):
     n_min = max(3, d + 1)
+    if planar and d == 3:
+        # a flat 3-D shape (3 points in 3-D are always flat): non-collinear within its plane z = a x + b y + c
+        flat = draw(gen.points_case(3, n_max, 2, extent).filter(lambda p: gen.non_collinear(p, 0.05)))
+        a, b, c0 = draw(gen.q(-1, 1, 16)), draw(gen.q(-1, 1, 16)), draw(gen.q(-5, 5, 16))
+        pts = [[x, y, a * x + b * y + c0] for x, y in flat]
+        shift = draw(st.one_of(st.just([0.0] * d), gen.vec(d, -20, 20)))
+        return {"pts": pts, "shift": shift, "planar": True}
     pts = draw(gen.points_case(n_min, n_max, d, extent).filter(lambda p: gen.non_collinear(p, 0.05)))
     shift = draw(st.one_of(st.just([0.0] * d), gen.vec(d, -20, 20), st.just([-extent / 2] * d)))
     return {"pts": pts, "shift": shift}
@@ -176,10 +183,11 @@ def s_noise(n, d):
 
 
 @st.composite
-def s_homog_fit(draw, classes, family="mixed", levels=None, dims=(2, 3), competitors=0, n_params=None):
+def s_homog_fit(draw, classes, family="mixed", levels=None, dims=(2, 3), competitors=0, n_params=None, planar=False):
     spec = draw(s_spec(classes))
     d = draw(st.sampled_from(list(dims)))
-    src = draw(s_source(d))
+    flat = planar and d == 3 and spec["cls"] != "AlignmentAffine" and draw(st.integers(0, 3)) == 0
+    src = draw(s_source(d, planar=flat))
     n = len(src["pts"])
     if family == "own":
         own = True
@@ -313,6 +321,7 @@ def s_optimal():
         ["AlignmentTranslation", "AlignmentRotation", "AlignmentAffine"],
         competitors=6,
         n_params=_n_params_optimal,
+        planar=True,
     )
 
 
@@ -460,7 +469,7 @@ def _n_params_rot(spec, d):
 
 
 def s_scale_similarity():
-    return s_homog_fit(["AlignmentUniformScale", "AlignmentSimilarity"], competitors=6, n_params=_n_params_rot)
+    return s_homog_fit(["AlignmentUniformScale", "AlignmentSimilarity"], competitors=6, n_params=_n_params_rot, planar=True)
 
 
 def c_scale_similarity(case, ctx):
@@ -789,6 +798,16 @@ def c_pwa_affine(case, ctx):
             "pwa.interior_not_barycentric_map." + base,
             lambda: "trilist %r\npoints %r\n%s" % (tl, pts, describe(got, want)),
         )
+        # the caller re-uses its work buffer: same array object, refilled in place with other interior points of the
+        # same shape (here: the same points in reverse order, pulled a little towards the first one)
+        if pts.shape[0] >= 2:
+            order = list(range(pts.shape[0]))[::-1]
+            buf = pts.copy()
+            a.apply(buf)
+            buf[:] = pts[order]
+            got_r = a.apply(buf)
+            ctx.expect(close(got_r, want[order], rtol=tol, scale=sc), "pwa.reused_buffer_gives_previous_result." + base,
+                       lambda: describe(got_r, want[order]))
     # ---- second differences along a segment inside one triangle vanish
     for k, u0, v0, u1, v1 in case["segs"]:
         k = k % len(tl)
